@@ -212,6 +212,20 @@ func (p *Proof) SetExpected(pk *gabikeys.PublicKey, challenge, response *big.Int
 	return nil
 }
 
+// VerifyStructure checks that all parts of the proof that are sent over the wire are present
+// (the remaining fields are set by SetExpected() during verification).
+func (p *Proof) VerifyStructure() bool {
+	if p == nil || p.Cr == nil || p.Cu == nil || p.Responses == nil || p.SignedAccumulator == nil {
+		return false
+	}
+	for _, name := range secretNames {
+		if name != "alpha" && p.Responses[name] == nil {
+			return false
+		}
+	}
+	return true
+}
+
 func (p *Proof) ChallengeContributions(key *gabikeys.PublicKey) []*big.Int {
 	return proofstructure.commitmentsFromProof(key, []*big.Int{},
 		p.Challenge, key, (*proof)(p), (*proof)(p))
